@@ -8,7 +8,9 @@ import (
 	"encoding/json"
 	"fmt"
 	"os"
+	"runtime"
 	"strings"
+	"sync"
 
 	"github.com/Comcast/rulio/core"
 
@@ -163,6 +165,9 @@ func main() {
 	if e.Thorough() && e.Batch == 0 {
 		uniqueIds(r)
 	}
+	if e.Batch == 0 {
+		uniqueIdsConcurrent(r)
+	}
 	r.Write()
 	fmt.Fprintf(os.Stderr, "c02 batch %d: %d evaluations\n", e.Batch, r.Evaluations)
 }
@@ -193,6 +198,61 @@ func uniqueIds(r *rep.Report) {
 		l.RemFact(drv.Ctx(), id)
 	}
 	r.Count("bulk_generated_ids_distinct", len(seen))
+}
+
+// uniqueIdsConcurrent: requests to different locations run in parallel; the ids
+// generated for them must be distinct across the whole engine (an id-less add that
+// gets an id already handed out overwrites somebody's fact within a location).
+func uniqueIdsConcurrent(r *rep.Report) {
+	const nloc, per = 8, 3000
+	// the child runs with GOMAXPROCS=1 (8 batches share the machine); this part needs real parallelism
+	defer runtime.GOMAXPROCS(runtime.GOMAXPROCS(8))
+	ids := make([][]string, nloc)
+	var wg sync.WaitGroup
+	gate := make(chan bool)
+	for li := 0; li < nloc; li++ {
+		l, err := drv.NewLoc(fmt.Sprintf("U%d", li), drv.Kinds[li%2], drv.MustMem())
+		if err != nil {
+			return
+		}
+		c := core.DefaultControl()
+		c.MaxFacts = 1 << 30
+		l.SetControl(c)
+		wg.Add(1)
+		go func(li int, l *core.Location) {
+			defer wg.Done()
+			<-gate
+			for i := 0; i < per; i++ {
+				id, err := l.AddFact(drv.Ctx(), "", core.Map{"n": float64(i)})
+				if err != nil {
+					id = "ERR:" + err.Error()
+				}
+				ids[li] = append(ids[li], id)
+				l.RemFact(drv.Ctx(), id)
+			}
+		}(li, l)
+	}
+	close(gate)
+	wg.Wait()
+	seen := map[string]int{}
+	for li := range ids {
+		for _, id := range ids[li] {
+			seen[id]++
+		}
+	}
+	dups := 0
+	example := ""
+	for id, n := range seen {
+		if n > 1 || id == "" || strings.HasPrefix(id, "ERR:") {
+			dups++
+			example = id
+		}
+	}
+	r.Case(true, "unique-ids-concurrent")
+	r.Count("concurrently_generated_ids", nloc*per)
+	if dups > 0 {
+		r.Violate("", "ids generated for concurrent id-less adds (one goroutine per location) are not unique", rep.J{"locations": nloc, "adds_per_location": per, "ids_handed_out_more_than_once_or_invalid": dups, "example": example})
+	}
 }
 
 func step(r *rep.Report, locs map[string]*core.Location, m *ref.Loc, run *[]op, o op, written map[string]bool, genIds map[string]bool) {
